@@ -69,6 +69,7 @@ func checkC08(r *Run) propMeta {
 		}
 	}
 	checkStackPrimitives(r)
+	checkStateDerefs(r, vm, g)
 	checkOptionalDerefGuarded(r)
 	checkChildAccessorsGuarded(r)
 	checkDiscriminatorsNonNil(r)
